@@ -12,9 +12,44 @@ from .symex import BreakSig, ContinueSig, Env
 
 
 class View:
-    def __init__(self, length, get):
+    def __init__(self, length, get, consume=None, shape=None):
         self.length = length
         self.get = get
+        # consume(k): the first k elements of the view have been taken (views over iterator objects)
+        self.consume = consume
+        # element shape when the view ranges over a symbolic list (needed to build result lists)
+        self.shape = shape
+
+
+def _stores_below(interp, live, snap, pos):
+    """the live array is the snapshot array with stores at indices that are all provably < pos"""
+    a = live
+    while not a.eq(snap):
+        if z3.is_app(a) and a.decl().kind() == z3.Z3_OP_STORE and interp.ctx.implied(a.arg(1) < pos, 2000):
+            a = a.arg(0)
+            continue
+        return False
+    return True
+
+
+def iterator_view(interp, o, node=None):
+    """remaining elements of an iterator object created by iter(); taking elements advances it.
+    A list iterator reads the LIVE list: the snapshot taken at iter() time may only be used if the list was not
+    changed since, except at positions the iterator has already passed."""
+    base = o.fields["__view__"]
+    pos = o.fields["__pos__"].z
+    live, snap = o.fields.get("__live__"), o.fields.get("__snap__")
+    if live is not None and not live.concrete:
+        same_len = live.length is snap.length or interp.ctx.implied(live.length == snap.length, 2000)
+        if not (same_len and all(_stores_below(interp, x, y, pos) for x, y in zip(live.arrs, snap.arrs))):
+            raise Unsupported(f"list changed ahead of a live iterator (line {getattr(node, 'lineno', '?')})")
+    elif live is not None and live.concrete and len(live.items) != concrete_int(base.length):
+        raise Unsupported("list resized under a live iterator")
+
+    def consume(k):
+        o.fields["__pos__"] = VInt(z3.simplify(pos + k))
+    rem = z3.simplify(z3.If(base.length - pos > 0, base.length - pos, z3.IntVal(0)))
+    return View(rem, lambda i: base.get(z3.simplify(pos + i)), consume, base.shape)
 
 
 def iter_view(interp, v, node=None):
@@ -28,7 +63,7 @@ def iter_view(interp, v, node=None):
             items = list(v.items)
             return View(z3.IntVal(len(items)), lambda i: items[_ci(i)])
         snap = ops.snapshot(v)
-        return View(snap.length, lambda i: ops.list_get(snap, i))
+        return View(snap.length, lambda i: ops.list_get(snap, i), shape=v.shape)
     if isinstance(v, VSet) and v.items is not None:
         items = list(v.items)
         return View(z3.IntVal(len(items)), lambda i: items[_ci(i)])
@@ -41,6 +76,8 @@ def iter_view(interp, v, node=None):
         if v.kind == "str":
             return View(z3.Length(z), lambda i: VStr(z3.SubString(z, i, 1), "str"))
         return View(z3.Length(z), lambda i: VInt(z3.StrToCode(z3.SubString(z, i, 1))))
+    if isinstance(v, VObj) and "__view__" in v.fields and "__pos__" in v.fields:
+        return iterator_view(interp, v, node)
     if isinstance(v, VObj) and "__view__" in v.fields:
         return v.fields["__view__"]
     if isinstance(v, VObj) and "__list__" in v.fields:
@@ -185,6 +222,8 @@ def cut_for(interp, st, env, spec, view):
         try:
             interp.exec_block(st.body, env)
         except BreakSig:
+            if view.consume:
+                view.consume(i + 1)
             return
         except ContinueSig:
             pass
@@ -194,4 +233,6 @@ def cut_for(interp, st, env, spec, view):
                        {"clause": spec["inv_src"][k]})
         # a for loop over a finite sequence terminates: variant len - i (implicit)
         raise PathEnd()
+    if view.consume:
+        view.consume(view.length)
     interp.exec_block(st.orelse, env)
